@@ -1366,3 +1366,56 @@ func VerifC03_DecodeError() {
 	verif.Assert(p.stats.DownstreamRequestActive.Count() == active0-1, "a request that could not be decoded is never cleaned up (DownstreamRequestActive not released)")
 	verif.Cover("end")
 }
+
+// VerifC10_TerminateDuringRetry: max_retries = 1 on the cluster, a retrying
+// route. The first attempt fails in a retriable way (503, or an upstream
+// reset), the retry is admitted - it holds the cluster's one retry slot - and
+// is sent; while it waits for its upstream a stream filter that kept its
+// handler answers the request itself (TerminateStream), or the client goes
+// away. When the request has ended the retries resource is back to zero: the
+// slot an admitted retry holds is released however the request ends.
+func VerifC10_TerminateDuringRetry() {
+	verif.Switches(0)
+	zzMaxRetries = 1
+	ds, sender, pool, p, ctx := zzMachine(2, true)
+	zzTryTimeout, zzMaxRetries = 0, 0
+	pool.scripted = true
+	retries := p.clusterManager.(*zzMCM).host.info.rm.Retries()
+	kf := &zzKeepFilter{}
+	ds.streamFilterChain.AddStreamReceiverFilter(kf, api.AfterChooseHost)
+	done := false
+	go func() {
+		ds.OnReceive(ctx, protocol.CommonHeader{}, nil, nil)
+		done = true
+	}()
+	verif.Settle()
+	ur := ds.upstreamRequest
+	verif.Assume(!done && ur != nil && ur.requestSender != nil && len(pool.senders) == 1)
+	if verif.Choose("first_attempt_fails_by", 2) == 0 {
+		ur.OnReceive(ctx, protocol.CommonHeader{"status": "503"}, nil, nil)
+	} else {
+		ur.OnResetStream(types.StreamConnectionTermination)
+	}
+	verif.Settle()
+	verif.Assume(!done && len(pool.senders) == 2) // the retry was admitted and accepted: it waits for its upstream
+	verif.Assert(retries.Cur() == 1, "an admitted retry in flight does not hold the cluster's retry slot")
+	switch verif.Choose("ended_by", 3) {
+	case 0:
+		// (refused when a response of the failed attempt is on record - then the upstream answers)
+		if kf.handler != nil && kf.handler.TerminateStream(504) {
+			verif.Cover("terminated")
+		} else {
+			ds.upstreamRequest.OnReceive(ctx, protocol.CommonHeader{"status": "200"}, nil, nil)
+		}
+	case 1:
+		ds.OnResetStream(types.StreamConnectionTermination)
+		verif.Cover("client gone")
+	default:
+		ds.upstreamRequest.OnReceive(ctx, protocol.CommonHeader{"status": "200"}, nil, nil)
+	}
+	verif.Settle()
+	verif.Assert(done, "the request did not end")
+	verif.Assert(retries.Cur() == 0, "the retry slot held by an admitted retry was not released when the request ended")
+	_ = sender
+	verif.Cover("end")
+}
